@@ -6,12 +6,15 @@ from harness import comp_history as H
 from harness import run_history as R
 from vlib import core
 
-PROPS = ["Props/C19.v", "Props/C19run.v"]
+PROPS = ["Props/C19.v", "Props/C19run.v", "Props/C05final.v"]
+TRANSLATORS = ["final"]
 THEOREMS = ["C19_reachable_wf", "C19_record_get", "C19_frame", "C19_grow_padding", "C19_errors_preserve_state",
             "C19_setitem", "C19_no_alias", "C19_env_mutation_invisible", "C19_last_record_wins",
             "C19_unrecorded_is_blank", "C19_record_iteration", "C19_result_keys", "C19_result_copies",
             "C19_result_fields_readable", "C19_status_unset_refuted_before_fix",
-            "C19_rows_are_evaluated_pairs", "C19_func_count_nondecreasing", "C19_result_is_last_row", "C19_noisy_result_is_a_row"]
+            "C19_rows_are_evaluated_pairs", "C19_func_count_nondecreasing", "C19_result_is_last_row", "C19_noisy_result_is_a_row",
+            # Props/C05final.v: which attribute goes to which key of the result / which history row is returned, regenerated from the source
+            "C19_result_fields_are_source", "C05_returned_iterate_is_one_history_row"]
 LEVEL = "proof"
 RULE = ("(a) op sequences on the real IterationHistory / OptimizeResult from one PRNG: known, unknown and deleted keys; "
         "iterations negative / in range / at the end / with a gap / far beyond the end; values int, float, str, numpy scalar, "
@@ -29,6 +32,8 @@ TRUSTED = [
     "values are atomic in the model (content + identity); the harness checks deep copies behaviourally by changing the innermost containers of every source in place",
     "what the loop records (which points, which values) is NOT decided by the container theorems: run-level clauses are decided by the skeleton theorems added by the lead and, here, checked on real runs by harness/run_history.py (monitor)",
     "the key lists of the model (result_keys, set_attributes_keys) are compared on every run with OptimizeResult._keys and with the assignments found in the source of set_attributes (ast)",
+    "translate/final.py regenerates the tail of optimize() and the (key, source expression) list of OptimizeResult.set_attributes on every run (gen/Src_final.v, fail-closed); validated each run: "
+    "the generated list against the real OptimizeResult on generated optimiser states, the generated selection / re-sampling definitions by Coq on every recorded end-game (harness/comp_final.py)",
 ]
 ASSUMPTIONS = [
     "h[k] = v is exercised with v in {None, 1-D object array, unsized scalar}; other objects (lists, strings, float arrays) make record() behave as numpy dictates and are outside the model",
@@ -215,10 +220,17 @@ def tie(ctx, broken):
     # the same kind of panel the C05 check uses (traces are shared through the cache)
     from harness import runlevel as R
     from props import C05
-    R.tie_skeleton(ctx, broken, [(s, None) for s in C05.specs_for(ctx)], "c19", extra_valid="noisy")
+    out = R.tie_skeleton(ctx, broken, [(s, None) for s in C05.specs_for(ctx)], "c19", extra_valid="noisy")
+    from harness import comp_final as F
+    F.tie_final(ctx, broken, out, "c19")          # gen/Src_final.v on every recorded end-game (translator validation)
+    F.tie_result_assembly(ctx, broken)            # the generated (key, source) list vs the real OptimizeResult
+    F.apply_mon_final(ctx, out, broken)
 
 
 def search(ctx, broken):
+    from harness import comp_final as F
+    if F.search_final(ctx, broken, [], c19=True):
+        return True
     for i in range(4000):
         keys, ops = H.gen_history_sequence(ctx.rng, i)
         run = H.run_history(keys, ops)
@@ -255,6 +267,9 @@ def replay(ctx, rp):
         if not run["viol"]:
             print("replay: property holds on this input now")
         return 1 if run["viol"] else 0
+    if kind == "run" and "spec" in r:
+        from harness import comp_final as F, runlevel as RL
+        return RL.generic_replay(ctx, rp, [F.mon_final_property("C19")])
     if kind == "run":
         rec = R.run_one(r["cfg"])
         if rec["crash"]:
